@@ -242,8 +242,19 @@ class ChainFam(Family):
         return lines
 
     # ---- Family interface
+    def __init__(self, focus="all"):
+        self.focus = focus
+
     def generate(self, tier, rng):
         quick = tier == "quick"
+        if self.focus == "fetch":
+            # C12's clause "a block fetched by hash is the block that hash names": only the scripts in which
+            # blocks come from peers (honest, silent and lying replies, in every order)
+            for n in ((1, 2) if quick else (1, 2, 3)):
+                yield from self._fetch_variants(n)
+            for k in range(150 if quick else 4000):
+                yield (f"random-{k}", self._random_script(rng, rng.randrange(3, 16 if quick else 41), True))
+            return
         for n in (1, 2, 3):
             yield from self._exhaustive(n)
         yield from self._exhaustive(4, both_orders=not quick)
